@@ -101,8 +101,9 @@ fn main() {
         // failing unions: all ordered pairs (bounded size of the right operand for the larger tables)
         if cex.viols.is_empty() && cfg.bucketsize * cfg.n_buckets <= 6 {
             let lim = if cfg.budget.is_none() { 1 } else if cfg.bucketsize == 2 { 4 } else { 1 };
-            let rights: Vec<cuckoo::St> = cex.states.iter().filter(|s| s.f.len() <= lim).cloned().collect();
-            let r = cuckoo::pair_sweep(&cm, &cex.states, &rights, 1);
+            let rights: Vec<cuckoo::St> = cex.states.iter().filter(|s| s.off == 0 && s.f.len() <= lim).take(5000).cloned().collect();
+            let lefts: Vec<cuckoo::St> = cex.states.iter().filter(|s| s.off == 0).take(5000).cloned().collect();
+            let r = cuckoo::pair_sweep(&cm, &lefts, &rights, 1);
             ps = r.0;
             pv = r.1;
         }
